@@ -8,6 +8,7 @@ import (
 	"sort"
 	"strconv"
 	"strings"
+	"sync/atomic"
 	"time"
 )
 
@@ -55,6 +56,41 @@ func LockStalls(minMinutes int) map[string]int {
 	return out
 }
 
+func noProgressLimit() time.Duration {
+	if v := os.Getenv("VERIF_NO_PROGRESS_MIN"); v != "" {
+		if m, err := strconv.Atoi(v); err == nil && m > 0 {
+			return time.Duration(m) * time.Minute
+		}
+	}
+	return 15 * time.Minute
+}
+
+// parkedInRepo summarises, per function of the code under test and wait state, the goroutines
+// that are currently parked there.
+func parkedInRepo() map[string]int {
+	buf := make([]byte, 32<<20)
+	n := runtime.Stack(buf, true)
+	out := map[string]int{}
+	for _, g := range strings.Split(string(buf[:n]), "\n\n") {
+		lines := strings.Split(g, "\n")
+		m := stallHeaderRe.FindStringSubmatch(lines[0])
+		if m == nil {
+			continue
+		}
+		for _, l := range lines[1:] {
+			if strings.HasPrefix(l, repoModule) {
+				fn := strings.TrimLeft(strings.TrimPrefix(l, repoModule), "/.")
+				if i := strings.LastIndex(fn, "("); i > 0 {
+					fn = fn[:i]
+				}
+				out[m[1]+"@"+fn]++
+				break
+			}
+		}
+	}
+	return out
+}
+
 // StartStallWatch reports a lock that is never released as a violation of the running check and
 // ends the process (the parked harness goroutines cannot be unwound).
 func (r *Run) StartStallWatch() {
@@ -69,6 +105,23 @@ func (r *Run) StartStallWatch() {
 			}
 			st := LockStalls(2)
 			if len(st) == 0 {
+				// no progress at all for a long time: harness goroutines are parked for good on
+				// something other than a lock (a channel of the code under test that nobody serves).
+				// That is not a verdict about the property: record it as inconclusive, write what was
+				// observed and end the process (exit 1 if violations were recorded before, else 3).
+				last := atomic.LoadInt64(&r.lastActivity)
+				if last != 0 && time.Since(time.Unix(0, last)) > noProgressLimit() {
+					r.Inconclusive("no-progress-for-" + noProgressLimit().String() + "; goroutines parked in the code under test: " + fmt.Sprint(parkedInRepo()))
+					r.mu.Lock()
+					r.stalled = true
+					r.mu.Unlock()
+					code := r.Finish()
+					if code == 0 {
+						fmt.Printf("INCONCLUSIVE property=%s: the check stopped making progress\n", r.Prop)
+						code = 3
+					}
+					os.Exit(code)
+				}
 				continue
 			}
 			var fns []string
